@@ -1,22 +1,40 @@
 """C13 — type inference is stable under meaning-preserving rewrites of the source.
-Design level: spec/Rewrites.tla (the eight rewrite kinds as actions on an abstract program with the reference
+Design level: spec/Rewrites.tla (the nine rewrite kinds as actions on an abstract program with the reference
 name resolution; TLC checks that under the side conditions the harness enforces every rewrite — and every chain
 of up to three — is a stuttering step of the summary <verdict, obs>, and that without the freshness condition
 renaming can capture: RewritesMCcapture.cfg must fail).
 Code level [TV]: `vh rewrite` applies sampled instances of RenameLocal, ReorderToplevels, ReorderMembers,
-Parenthesise, WrapInBlock, AnnotateLet, ExplicitTypeArgs, SplitModule textually (AST locations, no printer) to
-accepted programs (generated + repository) and to rejected ones (one injected type error), re-parses and keeps
+Parenthesise, WrapInBlock, AnnotateLet, AnnotateLambda, ExplicitTypeArgs, SplitModule textually (AST locations, no
+printer) to accepted programs (generated + repository + the hand-written feature corpus corpus/c13/*.sam) and to
+rejected ones (one injected type error); on the feature corpus EVERY applicable instance is applied (`--exhaustive`),
+so that each annotation rewrite meets the language features it interacts with (lambdas whose body is typed from
+the expected return type, zero-parameter lambdas, bounds that mention other type parameters, ...).  It re-parses and keeps
 an instance only if the syntax tree shows exactly the intended modification; originals and rewritten programs
 are compiled and run on both back ends; spec/RewritesTrace.tla checks the action property
 [][verdict' = verdict /\\ (accepted => obs' = obs)] between consecutive programs of every recorded history."""
-import hashlib, json, os, re, time
+import glob, hashlib, json, os, re, time
 from concurrent.futures import ThreadPoolExecutor
 from vlib import *
 import progcommon as pc
 
 PID = "C13"
 KINDS = ["RenameLocal", "ReorderToplevels", "ReorderMembers", "Parenthesise", "WrapInBlock",
-         "AnnotateLet", "ExplicitTypeArgs", "SplitModule"]
+         "AnnotateLet", "ExplicitTypeArgs", "SplitModule", "AnnotateLambda"]
+# kinds with few instances per program (everything except the per-expression kinds)
+SPARSE_KINDS = [k for k in KINDS if k not in ("Parenthesise", "WrapInBlock")]
+CORPUS_DIR = os.path.join(VERIF, "corpus", "c13")
+# what the feature corpus must contain for the annotation rewrites to be exercised where they matter (vacuity)
+REQUIRED_FEATURES = [
+    "annotate_lambda_sites_as_argument_of_call_with_inferred_type_arguments",
+    "lambdas_without_parameters_as_argument_of_call_with_inferred_type_arguments",
+    "lambdas_returning_lambda",
+    "annotate_let_sites_with_instantiated_generic_class",
+    "type_parameter_bounds_mentioning_itself",
+    "type_parameter_bounds_mentioning_earlier_parameter",
+    "type_parameter_bounds_mentioning_later_parameter",
+]
+EXHAUSTIVE_HIST = 1_000_000      # history numbers of the exhaustive pass start here
+DENSE_CAP_QUICK = 0              # quick tier: Parenthesise / WrapInBlock instances per corpus program (0 = all)
 BUILDS = [31]
 PROFILES = (("mixed", 0.3), ("enums", 0.2), ("closures", 0.2), ("loops", 0.15), ("strings", 0.15))
 
@@ -51,6 +69,18 @@ HAND = [
 ]
 
 
+def feature_corpus():
+    """corpus/c13/*.sam: hand-written accepted programs; a file is one module `Main`, or several modules
+    introduced by lines `// module: Name` (the entry is the module Main)"""
+    progs = []
+    for path in sorted(glob.glob(os.path.join(CORPUS_DIR, "*.sam"))):
+        text = open(path).read()
+        parts = re.split(r"^// module: (\w+)[ \t]*\n", text, flags=re.M)
+        srcs = {"Main": text} if len(parts) == 1 else {parts[i]: parts[i + 1] for i in range(1, len(parts), 2)}
+        progs.append({"origin": "corpus:" + os.path.basename(path), "entry": "Main", "sources": srcs, "with_std": True})
+    return progs
+
+
 def prune(p):
     """a repository program restricted to the modules its entry can reach through imports"""
     srcs = p["sources"]
@@ -80,6 +110,8 @@ def corpus(d, tier):
     if tier != "quick":
         good.append(repo[0])
     good += [dict(h, with_std=True) for h in json.loads(json.dumps(HAND))]
+    feat = feature_corpus()
+    good += feat
     for i, p in enumerate(good):
         p["id"] = i
     # rejected programs: one injected static error each
@@ -89,6 +121,10 @@ def corpus(d, tier):
     write_ndjson(src, small[:: max(1, len(small) // max(1, n_broken))][:n_broken])
     vh(["rewrite-break", "--in", src, "--out", dst, "--seed", SEED, "--per-program", 1])
     broken = read_ndjson(dst)
+    # ... and the feature corpus, each program with one (thorough: four) injected error(s)
+    write_ndjson(src, feat)
+    vh(["rewrite-break", "--in", src, "--out", dst, "--seed", SEED + 1, "--per-program", 1 if tier == "quick" else 4])
+    broken += read_ndjson(dst)
     programs = good + broken
     for i, p in enumerate(programs):
         p["id"] = i
@@ -98,37 +134,73 @@ def corpus(d, tier):
     return programs
 
 
-def rewrite(d, programs, per_program, chain, avoid, jobs=8, kinds=None):
-    """runs `vh rewrite` over the programs in parallel; returns (step records, census)"""
+def rewrite(d, programs, per_program, chain, avoid, jobs=8, kinds=None, exhaustive=False, max_per_kind=0, tag="rw"):
+    """runs `vh rewrite` over the programs in parallel; returns (step records, census);
+    exhaustive: every applicable instance of `kinds` (per program and kind at most max_per_kind, 0 = all)
+    as a history of one step, instead of sampled chains"""
     chunks = [c for c in (programs[i::jobs] for i in range(jobs)) if c]
     av = os.path.join(d, "avoid.json")
     json.dump(avoid, open(av, "w"))
 
     def work(ci):
-        inp = os.path.join(d, f"rw-in-{ci}.ndjson")
-        outp = os.path.join(d, f"rw-out-{ci}.ndjson")
+        inp = os.path.join(d, f"{tag}-in-{ci}.ndjson")
+        outp = os.path.join(d, f"{tag}-out-{ci}.ndjson")
         write_ndjson(inp, chunks[ci])
         args = ["rewrite", "--in", inp, "--out", outp, "--seed", SEED, "--per-program", per_program,
                 "--chain", chain, "--avoid", av]
         if kinds:
             args += ["--kinds", ",".join(kinds)]
+        if exhaustive:
+            args += ["--exhaustive", "--max-per-kind", max_per_kind]
         out, _ = vh(args, timeout=3000)
         return read_ndjson(outp), json.loads(out.strip().splitlines()[-1])
 
     with ThreadPoolExecutor(max_workers=jobs) as ex:
         parts = list(ex.map(work, range(len(chunks))))
     steps = [s for part, _ in parts for s in part]
-    census = {"programs": 0, "unparseable": 0, "frontend_crashed": 0, "histories": 0, "steps": 0,
+    census = {"programs": 0, "unparseable": 0, "frontend_crashed": 0, "histories": 0, "steps": 0, "features": {},
               "kinds": {k: {"found": 0, "attempted": 0, "applied": 0, "discarded": 0, "discard_reasons": {}} for k in KINDS}}
     for _, c in parts:
         for k in ("programs", "unparseable", "frontend_crashed", "histories", "steps"):
             census[k] += c[k]
+        for f, n in c.get("features", {}).items():
+            census["features"][f] = census["features"].get(f, 0) + n
         for kc in c["kinds"]:
             t = census["kinds"][kc["kind"]]
             for f in ("found", "attempted", "applied", "discarded"):
                 t[f] += kc[f]
             for why, n in kc["discard_reasons"].items():
                 t["discard_reasons"][why] = t["discard_reasons"].get(why, 0) + n
+    return steps, census
+
+
+def exhaustive_pass(d, programs, tier, avoid):
+    """every applicable instance on the feature corpus (and, for the kinds with few instances, on its broken
+    variants), each as a history of one step; quick caps the two per-expression kinds per program"""
+    ok = [p for p in programs if p["origin"].startswith("corpus:") and "+break:" not in p["origin"]]
+    bad = [p for p in programs if p["origin"].startswith("corpus:") and "+break:" in p["origin"]]
+    dense = [k for k in KINDS if k not in SPARSE_KINDS]
+    cap = DENSE_CAP_QUICK if tier == "quick" else 0
+    passes = [(ok, SPARSE_KINDS, 0, "exs"), (ok, dense, cap, "exd"), (bad, SPARSE_KINDS, 0, "exbs")]
+    if tier != "quick":
+        passes.append((bad, dense, 0, "exbd"))
+    steps = []
+    census = {"programs": len(ok), "rejected_variants": len(bad), "features": {},
+              "kinds": {k: {"found": 0, "attempted": 0, "applied": 0, "discarded": 0, "discard_reasons": {}} for k in KINDS},
+              "kinds_on_rejected_variants": {k: {"found": 0, "attempted": 0, "applied": 0, "discarded": 0, "discard_reasons": {}} for k in KINDS},
+              "per_expression_kinds_cap_per_program": cap}
+    for n, (progs, kinds, mpk, tag) in enumerate(passes):
+        if not progs:
+            continue
+        st, c = rewrite(d, progs, 0, 1, avoid, kinds=kinds, exhaustive=True, max_per_kind=mpk, tag=tag)
+        for x in st:
+            x["hist"] += EXHAUSTIVE_HIST * (n + 1)
+        steps += st
+        into = census["kinds"] if progs is ok else census["kinds_on_rejected_variants"]
+        for k in kinds:
+            into[k] = c["kinds"][k]
+        if tag == "exs":
+            census["features"] = c["features"]
     return steps, census
 
 
@@ -323,7 +395,10 @@ def run(tier):
     per_program, chain = (11, 3) if tier == "quick" else (22, 3)
     avoid = [k["match"] for k in kf if "match" in k]
     steps, census = rewrite(d, programs, per_program, chain, avoid)
-    log(f"[c13] {len(steps)} rewrite steps; {time.time()-t0:.0f}s")
+    ex_steps, ex_census = exhaustive_pass(d, programs, tier, avoid)
+    n_sampled = len(steps)
+    steps += ex_steps
+    log(f"[c13] {n_sampled} sampled rewrite steps + {len(ex_steps)} (every instance on the feature corpus); {time.time()-t0:.0f}s")
     hists = run_histories(d, programs, steps)
     log(f"[c13] programs compiled and run; {time.time()-t0:.0f}s")
     fails = judge(d, programs, hists, stats, kf)
@@ -367,6 +442,25 @@ def run(tier):
     for s in steps:
         texts.add(hashlib.sha1(json.dumps(s["delta"], sort_keys=True).encode()).hexdigest())
     n_judged = sum(j["verdict_judged"] for j in judged.values())
+    # the feature corpus is accepted by the tree it was written against; on another tree this is a fact about
+    # the population (logged, counted), not a verdict: its rewrites are still judged
+    corpus_ids = {p["id"]: p["origin"] for p in programs if p["origin"].startswith("corpus:") and "+break:" not in p["origin"]}
+    corpus_rejected = sorted({corpus_ids[h["pid"]] for h in hists if h["pid"] in corpus_ids and h["rows"][0]["front"] != "accepted"})
+    for o in corpus_rejected:
+        log(f"[c13] note: feature-corpus program {o} is not accepted by this tree")
+    # vacuity (only meaningful when nothing was reported): every kind judged, the features met
+    if not fails:
+        idle = [k for k in KINDS if judged[k]["verdict_judged"] == 0]
+        if idle:
+            tool_failure(f"vacuous: no instance of {idle} was judged")
+        if not corpus_ids:
+            tool_failure(f"vacuous: no feature corpus in {CORPUS_DIR}")
+        missing = [f for f in REQUIRED_FEATURES if not ex_census["features"].get(f)]
+        if missing and not corpus_rejected:
+            tool_failure(f"vacuous: the feature corpus lacks {missing}")
+        unapplied = [k for k in ("AnnotateLambda", "AnnotateLet", "ExplicitTypeArgs") if ex_census["kinds"][k]["applied"] == 0]
+        if unapplied:
+            tool_failure(f"vacuous: no instance of {unapplied} on the feature corpus")
     fronts = {}
     for h in hists:
         fronts[h["rows"][0]["front"]] = fronts.get(h["rows"][0]["front"], 0) + 1
@@ -384,6 +478,11 @@ def run(tier):
         "program_census": {"total": len(programs), "histories_by_original_verdict": fronts,
                      "rewriter_census": {k: census[k] for k in ("programs", "unparseable", "frontend_crashed", "histories", "steps")}},
         "per_kind": per_kind,
+        "feature_corpus": dict(ex_census, steps=len(ex_steps), files=sorted(corpus_ids.values()),
+                               not_accepted_by_this_tree=corpus_rejected,
+                               rule="every applicable instance of every kind on each corpus program (the two per-expression "
+                                    "kinds capped per program in the quick tier when the cap is non-zero), and every instance of "
+                                    "the other kinds on its variants with one injected error; one history of one step each"),
         "chain_lengths": {str(k): v for k, v in sorted(chains.items())},
         "error_count_drift_steps": n_drift,
         "known_finding_hits": stats.get("known_hits", 0),
@@ -394,7 +493,7 @@ def run(tier):
     write_evidence(PID, tier, "exploration", coverage,
                    ["rewrites are applied as text edits at AST locations and kept only if the re-parsed syntax tree (locations and comments "
                     "ignored, class references resolved) equals the original tree with exactly the intended modification",
-                    "AnnotateLet / ExplicitTypeArgs write the checker's own inferred type and are kept only if the parsed annotation denotes "
+                    "AnnotateLet / AnnotateLambda / ExplicitTypeArgs write the checker's own inferred type and are kept only if the parsed annotation denotes "
                     "exactly that type (same classes in the same modules); types with unknown parts or classes not in scope are not instances",
                     "WrapInBlock is not applied to a class name (not a value expression) nor to the callee `e.m` of a call whose type arguments "
                     "are inferred from that call (spec.md 6.7.2: `e.m(args)` is one syntactic form)",
